@@ -613,6 +613,13 @@ def gen_tree(rng, depth, ctxkind, counter, budget, allow_x=True):
         else:
             for _ in range(rng.choice([0, 1, 1, 2, 3])):
                 node["sets"].append([rng.choice(SEM), rng.random() < 0.5])
+            if rng.random() < 0.35:
+                # the same directive given twice with opposite values: the decorator written first wins
+                d2, v2 = rng.choice(SEM[:3]), rng.random() < 0.5
+                node["sets"] = [x for x in node["sets"] if x[0] != d2]
+                i1 = rng.randrange(len(node["sets"]) + 1)
+                node["sets"].insert(i1, [d2, v2])
+                node["sets"].insert(rng.randrange(i1 + 1, len(node["sets"]) + 1), [d2, not v2])
             inner = "F" if k == "F" else "C"
             node["ch"] = gen_tree(rng, depth + 1, inner, counter, budget) if depth < 4 else []
             if k == "F":
@@ -994,3 +1001,29 @@ def run(ctx):
     run_nesting(ctx, T)
     ctx.note("phase wall seconds: coq+tables %.0f, parser %.0f, scope legality %.0f, nestings %.0f" % (
         t0 - ctx.t0, t1 - t0, t2 - t1, time.time() - t2))
+
+
+def replay(ctx, obj):
+    """re-run one recorded input against the implementation"""
+    inp = obj["input"]
+    if "f" in inp:                                   # a directive string
+        c = {"f": inp["f"], "s": inp["s"], "relaxed": inp.get("relaxed", False), "ignore": inp.get("ignore", False),
+             "cur": inp.get("cur"), "name": inp.get("name")}
+        r = cybuild.run_script(PARSE_WORKER, os.path.join(ctx.workdir, "parse"), stdin_obj=[c], name="parse_worker.py")
+        print("replayed:", json.dumps(c), "->", r["json"], "expected", obj.get("expected"))
+    elif "source" in inp and "program" in inp:       # a nesting program
+        wd = os.path.join(ctx.workdir, "nest")
+        opts = dict(inp.get("options") or {})
+        if opts.get("c_string_type") == "unicode": opts["c_string_type"] = "str"
+        if opts.get("c_string_encoding") == "default": opts["c_string_encoding"] = "utf8"
+        cybuild.build(inp["program"], inp["source"], wd, directives=opts)
+        r = cybuild.run_script(RUN_PROG, wd, name="run_prog.py", args=[inp["program"]])
+        key = inp.get("probe") or inp.get("func")
+        print("replayed:", inp["program"], key, "->", (r["json"] or {}).get("probes", {}).get(key), (r["json"] or {}).get("funcs", {}).get((key or "")[2:]),
+              "expected", obj.get("expected"))
+    elif "source" in inp:                            # a scope-legality program
+        r = cybuild.run_script(COMPILE_WORKER, os.path.join(ctx.workdir, "scopes0"), stdin_obj=[{"name": "replay", "source": inp["source"]}],
+                               name="compile_worker.py")
+        print("replayed:", json.dumps(inp), "->", r["json"], "expected", obj.get("expected"))
+    else:
+        print(json.dumps(obj, indent=1))
